@@ -340,7 +340,10 @@ fn delegation_block(b: &Block, newtype: &str) -> Option<String> {
         let a = toks(&inner.args[0]); if a == "rhs.0" || a == "rhs" { return Some(inner.method.to_string()); } } } } None };
     let wrap_arg = |e: &Expr| -> Option<Expr> { if let Expr::Call(c) = e { if toks(&c.func) == "Some" && c.args.len() == 1 { if let Expr::Call(c2) = &c.args[0] { let f = toks(&c2.func); if (f == newtype || f == "Self") && c2.args.len() == 1 { return Some(c2.args[0].clone()); } } } } None };
     match b.stmts.as_slice() {
-        [Stmt::Expr(e, None)] => wrap_arg(e).and_then(|a| inner_of(&a)),
+        // also `Some(Newtype(self.0.wrapping_<op>(rhs.0)))` / `saturating_<op>`: std methods that return a plain integer, so this is the only
+        // spelling of a non-checked delegation that compiles; recognised so that it is REPRESENTED (`some .wrapping_add`) and refutes the theorems
+        [Stmt::Expr(e, None)] => wrap_arg(e).and_then(|a| inner_of(&a).or_else(|| { if let Expr::MethodCall(inner) = &a { let m = inner.method.to_string();
+            if (m.starts_with("wrapping_") || m.starts_with("saturating_")) && toks(&inner.receiver) == "self.0" && inner.args.len() == 1 { let x = toks(&inner.args[0]); if x == "rhs.0" || x == "rhs" { return Some(m); } } } None })),
         [Stmt::Local(l), Stmt::Expr(e, None)] => { let name = if let Pat::Ident(i) = &l.pat { i.ident.to_string() } else { return None };
             let init = l.init.as_ref()?; if init.diverge.is_some() { return None; }
             let op = inner_of(&init.expr)?; let a = wrap_arg(e)?; if toks(&a) == name { Some(op) } else { None } }
@@ -399,7 +402,11 @@ fn amount_tables(ex: &mut Ex, s: &mut String, it: &Items) {
         ("SignedAmount", "positive_sub", "{ifself.is_negative()||rhs.is_negative()||rhs>self{None}else{self.checked_sub(rhs)}}"),
         ("SignedAmount", "is_negative", "{self.0.is_negative()}"),
         ("SignedAmount", "max_value", "{SignedAmount(i64::max_value())}"),
+        // C15: the two caps (`> i64::max_value() as u64`), the `negative` test of the unsigned type and the sign of the signed result
+        ("Amount", "from_str_in", "{let(negative,piconero)=parse_signed_to_piconero(s,denom)?;ifnegative{returnErr(ParsingError::Negative);}ifpiconero>i64::max_value()asu64{returnErr(ParsingError::TooBig);}Ok(Amount::from_pico(piconero))}"),
+        ("SignedAmount", "from_str_in", "{let(negative,piconero)=parse_signed_to_piconero(s,denom)?;ifpiconero>i64::max_value()asu64{returnErr(ParsingError::TooBig);}Ok(matchnegative{true=>SignedAmount(-(piconeroasi64)),false=>SignedAmount(piconeroasi64),})}"),
     ];
+    parser_tables(ex, s, it);
     for (ty, name, want) in reviewed {
         let got = find_fn(it, ty, "", name).map(|f| toks(&f.block)).unwrap_or_default();
         let ok = got == want;
@@ -408,6 +415,40 @@ fn amount_tables(ex: &mut Ex, s: &mut String, it: &Items) {
     }
 }
 
+/// C15: the constants and arithmetic sites of `parse_signed_to_piconero` — the literal of the length test `s.len() > N` and, in source
+/// order, the std integer methods of the three arithmetic sites (digit loop: `10_u64.<mul>(value)`, `val.<add>(digit)`; rescale loop:
+/// `10_u64.<mul>(value)`). A `wrapping_*` / `saturating_*` method is representable and refutes `C15_parser_constants`.
+fn parser_tables(ex: &mut Ex, s: &mut String, it: &Items) {
+    struct V { lens: Vec<i128>, ops: Vec<String> }
+    impl<'a> Visit<'a> for V {
+        fn visit_expr_binary(&mut self, b: &'a ExprBinary) {
+            if matches!(b.op, BinOp::Gt(_)) && toks(&b.left) == "s.len()" { if let Some(v) = eval(&b.right) { self.lens.push(v); } }
+            if matches!(b.op, BinOp::Ge(_)) && toks(&b.left) == "s.len()" { if let Some(v) = eval(&b.right) { self.lens.push(v - 1); } }
+            visit::visit_expr_binary(self, b);
+        }
+        fn visit_expr_method_call(&mut self, m: &'a ExprMethodCall) {
+            // receiver first (source order: `10_u64.checked_mul(value)` is the scrutinee of the match whose arm holds `val.checked_add(..)`)
+            visit::visit_expr_method_call(self, m);
+            let n = m.method.to_string(); if STD_OPS.contains(&n.as_str()) { self.ops.push(n); }
+        }
+    }
+    let f = it.free.iter().find(|f| f.sig.ident == "parse_signed_to_piconero");
+    let mut v = V { lens: vec![], ops: vec![] };
+    if let Some(f) = f { v.visit_block(&f.block); }
+    match (f, v.lens.as_slice()) {
+        (Some(_), [n]) if *n >= 0 => writeln!(s, "/-- the byte cap of `parse_signed_to_piconero`: the literal of `s.len() > N` -/\ndef amtMaxLen : Nat := {}", n).unwrap(),
+        _ => { ex.fail("amount.parse.max_len", "`parse_signed_to_piconero` not found or not exactly one test `s.len() > <literal>`"); writeln!(s, "def amtMaxLen : Nat := 0").unwrap(); } }
+    // visiting order: a method call is recorded after its sub-expressions, so the inner `val.checked_add` of the match arm comes after
+    // the scrutinee `10_u64.checked_mul(value)` only if the scrutinee is visited first — syn visits `match` scrutinee before the arms
+    let kinds: Vec<&str> = v.ops.iter().map(|o| o.rsplit('_').next().unwrap_or("")).collect();
+    if f.is_some() && kinds == ["mul", "add", "mul"] {
+        for (name, doc, op) in [("amtParseMul", "digit loop: `10_u64.<this>(value)`", &v.ops[0]), ("amtParseAdd", "digit loop: `val.<this>(digit)`", &v.ops[1]), ("amtRescaleMul", "rescale loop: `10_u64.<this>(value)`", &v.ops[2])] {
+            writeln!(s, "/-- {} -/\ndef {} : Option StdOp := some .{}", doc, name, op).unwrap(); }
+    } else {
+        ex.fail("amount.parse.ops", &format!("the arithmetic sites of `parse_signed_to_piconero` are not <mul>, <add>, <mul> std methods in this order: {:?}", v.ops));
+        for name in ["amtParseMul", "amtParseAdd", "amtRescaleMul"] { writeln!(s, "def {} : Option StdOp := none", name).unwrap(); }
+    }
+}
 
 // ---------------------------------------------------------------------------------------------------------------
 // E6: inventory of potential panic sites (C04). Keyed structurally: (file, enclosing fn, kind, normalised expression).
@@ -635,6 +676,7 @@ fn defs_of_item(item: &str) -> Vec<String> {
         ["network", "as_u8"] => vec!["asU8".into()], ["network", "from_u8"] => vec!["fromU8".into()],
         ["address", "from_slice"] => vec!["addrType".into(), "addrTypeEmptyIsError".into()],
         ["amount", "precision"] => vec!["precision".into()], ["amount", "denom_display"] => vec!["denomDisplay".into()], ["amount", "denom_fromstr"] => vec!["denomFromStr".into()],
+        ["amount", "parse", "max_len"] => vec!["amtMaxLen".into()], ["amount", "parse", "ops"] => vec!["amtParseMul".into(), "amtParseAdd".into(), "amtRescaleMul".into()],
         ["amount", ty, m] => { let pre = if *ty == "Amount" { "u" } else { "s" };
             if m.starts_with("checked_") || m.starts_with("op_") { vec![format!("{}_{}", pre, m)] } else { vec![format!("shape_{}_{}", ty, m)] } }
         [c] => vec![c.to_string()],
@@ -750,4 +792,32 @@ pub fn run(outdir: &str, reviewed_dir: &str) -> Vec<String> {
     notes.sort(); notes.dedup();
     out.extend(notes);
     out
+}
+
+#[cfg(test)]
+mod tests {
+    use super::*;
+    fn block(src: &str) -> Block { parse_str::<Block>(src).unwrap() }
+    #[test] fn delegation_forms() {
+        assert_eq!(delegation_block(&block("{ self.0.checked_add(rhs.0).map(Amount) }"), "Amount").as_deref(), Some("checked_add"));
+        assert_eq!(delegation_block(&block("{ Some(Amount(self.0.checked_mul(rhs)?)) }"), "Amount").as_deref(), Some("checked_mul"));
+        assert_eq!(delegation_block(&block("{ Some(Amount(self.0.wrapping_add(rhs.0))) }"), "Amount").as_deref(), Some("wrapping_add"));
+        assert_eq!(delegation_block(&block("{ Some(SignedAmount(self.0.saturating_mul(rhs))) }"), "SignedAmount").as_deref(), Some("saturating_mul"));
+        assert_eq!(delegation_block(&block("{ Some(Amount(self.0 + rhs.0)) }"), "Amount"), None);
+    }
+    fn parser(src: &str) -> (String, Vec<String>) {
+        let f = parse_file(src).unwrap(); let it = items(&f); let mut ex = Ex { fails: vec![] }; let mut s = String::new();
+        parser_tables(&mut ex, &mut s, &it); (s, ex.fails)
+    }
+    const HEAD: &str = "fn parse_signed_to_piconero(mut s: &str, denom: D) -> R { if s.len() > 50 { return Err(E::L); } for c in s.chars() { match c { '0'..='9' => { match 10_u64.checked_mul(value) { None => return Err(E::B), Some(val) => match val.checked_add((c as u8 - b'0') as u64) { None => return Err(E::B), Some(val) => value = val, }, } } _ => {} } } for _ in 0..k { value = match 10_u64.checked_mul(value) { Some(v) => v, None => return Err(E::B), }; } Ok((n, value)) }";
+    #[test] fn parser_sites() {
+        let (s, fails) = parser(HEAD);
+        assert!(fails.is_empty(), "{:?}", fails);
+        assert!(s.contains("def amtMaxLen : Nat := 50") && s.contains("def amtParseMul : Option StdOp := some .checked_mul") && s.contains("def amtParseAdd : Option StdOp := some .checked_add") && s.contains("def amtRescaleMul : Option StdOp := some .checked_mul"), "{}", s);
+        let (s, fails) = parser(&HEAD.replacen("10_u64.checked_mul(value)", "Some(10_u64.wrapping_mul(value))", 1).replace("s.len() > 50", "s.len() > 51"));
+        assert!(fails.is_empty(), "{:?}", fails);
+        assert!(s.contains("def amtMaxLen : Nat := 51") && s.contains("def amtParseMul : Option StdOp := some .wrapping_mul") && s.contains("def amtRescaleMul : Option StdOp := some .checked_mul"), "{}", s);
+        let (s, fails) = parser(&HEAD.replace("val.checked_add((c as u8 - b'0') as u64)", "Some(val + (c as u8 - b'0') as u64)"));
+        assert_eq!(fails.len(), 1); assert!(s.contains("def amtParseAdd : Option StdOp := none"));
+    }
 }
